@@ -63,7 +63,7 @@ Section Spec.
      truncated) digests — a property of the particular history, not an assumption on [hash] *)
   Definition no_collision (sk : skind) (k b : bytes) (h : list lop) : Prop :=
     Forall (fun op => match op with
-                      | OStore lp v =>
+                      | OStore lp v | OStoreW _ lp v =>
                         match store_plan lp v with
                         | Some (l', b') => skey sk l' = k -> b' = b
                         | None => True
